@@ -61,6 +61,10 @@ class HC:
     def __hash__(self):
         return hash(('HC', self.eq))
 
+    def __bool__(self):
+        # utilities may be falsy objects (0, '', empty containers)
+        return self.cid % 2 == 0
+
     def __repr__(self):
         return 'c%d' % self.cid
 
